@@ -152,6 +152,12 @@ class Sched(object):
         self.split = split                    # execute-at-server and deliver-response are separate events
         self.timer_choice = timer_choice
         self.fifo = True
+        # turn granularity.  False: the client's eventual-send queue (foolscap eventually(), zero-delay
+        # timers) runs after EVERY delivered answer.  True: every answer that is deliverable when a
+        # reactor turn starts is delivered before the queue runs - what a real reactor does when
+        # several answers are read from the sockets in one iteration.
+        self.batch = bool(os.environ.get("VERIF_BATCH"))      # env: experiments only; checks set it per case
+        self._batch = set()
         self.refuse_round = set()             # clients whose writes are refused until their next survey
         self.extras = []                      # [(label, callable)] harness-side pending actions (e.g. consumer resume)
         self.log = []
@@ -338,8 +344,18 @@ class Sched(object):
                 m.append(("extra", label, fn))
         return m
 
-    def step(self):
+    def _pump(self):
+        if self.batch:
+            if any((e.key(), e.direction) in self._batch for e in self.pending):
+                return False
+            R.pump_until_idle()
+            self._batch = set((e.key(), e.direction) for e in self.pending)
+            return True
         R.pump_until_idle()
+        return True
+
+    def step(self):
+        self._pump()
         m = self.menu()
         if not m:
             return False
@@ -352,7 +368,10 @@ class Sched(object):
         # every scheduler step takes one virtual millisecond, so that response times (which the
         # downloader uses as a sort key for shares) are a deterministic function of the schedule
         # instead of all being zero and leaving the order to id()-based set iteration
-        R.advance(0.001)
+        if self.batch and any((e.key(), e.direction) in self._batch for e in self.pending):
+            R.rightNow += 0.001       # the clock ticks, but no timer runs inside a reactor turn
+        else:
+            R.advance(0.001)
         if kind == "deliver":
             self.do_deliver(ev)
         elif kind == "extra":
@@ -365,7 +384,7 @@ class Sched(object):
             R.fire_next_timer()
         else:
             self.do_fault(ev, kind.split(":", 1)[1])
-        R.pump_until_idle()
+        self._pump()
         return True
 
     def run(self, until=None, max_steps=20000, max_timers=400):
